@@ -141,16 +141,17 @@ func Harness_C14_loglimits() {
 }
 
 // Harness_C14_shapes: shaped tables (multi-level indexes, object index, log index, padding) are well-formed.
-// bounds: the shapes of Harness_C01_table_shapes (6 quick, 8 thorough) plus a table of 44 refs sharing 3 object ids (position lists of 9..20 entries in the object index)
+// bounds: the shapes of Harness_C01_table_shapes (6 quick, 8 thorough) plus a table of 44 refs sharing 3 object ids (position lists of 9..20 entries in the object index), tables of 70 and 170 one-ref blocks all pointing at one object (a complete list of 70 positions; a list of about 145 that does not fit and is omitted), and two tables with a ref index but without any object id (deletions and symbolic refs only: no object section)
 // covers: done
 func Harness_C14_shapes() {
 	n := nShapesQuick
 	if VerifTier() > 0 {
 		n = nShapesAll
 	}
-	which := VerifChoose(n + 1)
-	if which == n {
-		which = 8 // shared objects: multi-entry position lists in the object index
+	extra := []int{8, 9, 10, 11, 12} // shared objects (multi-entry position lists), one object in 70 / 130 ref blocks, tables without any object id
+	which := VerifChoose(n + len(extra))
+	if which >= n {
+		which = extra[which-n]
 	}
 	sh := pickShape(which)
 	refs, logs := buildShape(sh)
